@@ -739,6 +739,39 @@ def check_estimate(prog, rep):
         if isinstance(s, ast.Assign) and isinstance(s.targets[0], ast.Name):
             lasg[s.targets[0].id] = s.value
     look = lasg.get(s0.id) if isinstance(s0, ast.Name) else s0
+    if isinstance(look, ast.Call) and isinstance(look.func, ast.Attribute) and look.func.attr == "get" and isinstance(look.func.value, ast.Name) and look.args \
+            and _strip(dump(look.args[0])) == taxon and isinstance(s0, ast.Name):
+        # TABLE.get(taxon, default): the skip test must recognise the default, or the default row is copied to every unphenotyped taxon
+        dflt = look.args[1] if len(look.args) > 1 else next((k.value for k in look.keywords if k.arg == "default"), None)
+        dval = None if dflt is None else (dflt.value if isinstance(dflt, ast.Constant) else (-dflt.operand.value if isinstance(dflt, ast.UnaryOp) and isinstance(dflt.op, ast.USub)
+                                                                                            and isinstance(dflt.operand, ast.Constant) else "?"))
+        guards_ = [g for g in lp.body if isinstance(g, ast.If) and any(isinstance(x, ast.Name) and x.id == s0.id for x in ast.walk(g.test))
+                   and g.body and isinstance(g.body[-1], (ast.Continue,))]
+        fires = False
+        for g in guards_:
+            t = g.test
+            if isinstance(t, ast.Compare) and len(t.ops) == 1 and isinstance(t.left, ast.Name) and t.left.id == s0.id:
+                r_ = t.comparators[0]
+                rv = r_.value if isinstance(r_, ast.Constant) else (-r_.operand.value if isinstance(r_, ast.UnaryOp) and isinstance(r_.op, ast.USub) and isinstance(r_.operand, ast.Constant) else "?")
+                if isinstance(t.ops[0], ast.Is) and rv is None and dval is None:
+                    fires = True
+                elif isinstance(t.ops[0], ast.Eq) and rv == dval and dval != "?":
+                    fires = True
+                elif isinstance(t.ops[0], ast.Lt) and isinstance(dval, int) and isinstance(rv, int) and dval < rv:
+                    fires = True
+                elif rv == "?" or dval == "?":
+                    fires = None
+        if fires is None or dval == "?":
+            rep.unrec(R, c2, "missing-taxon sentinel %s / skip test not modelled" % (dump(dflt) if dflt is not None else "None"))
+            return
+        if not fires:
+            rep.violate(R, c2, "a taxon absent from the phenotype table gets row index %s from %s.get(%s, %s) and no test skips that value: it receives row %s of the aggregate "
+                        "(another taxon's mean) instead of being reported as missing" % (dval, look.func.value.id, taxon, dval, dval), where(f, look),
+                        "skip the taxon (keep NaN) when the name is absent", dump(look))
+            good = False
+            return
+        look = ast.Subscript(value=look.func.value, slice=look.args[0], ctx=ast.Load())
+        has_skip = True
     if not (isinstance(look, ast.Subscript) and isinstance(look.value, ast.Name) and _strip(dump(look.slice)) == taxon):
         if isinstance(s0, ast.Name) and s0.id == i or _strip(dump(s0)) == i:
             rep.violate(R, c2, "aggregate row %s is copied to genotype row %s: positions in the sorted group-by result are taken for genotype positions" % (i, i), where(f, store),
